@@ -2,6 +2,7 @@ SPECIFICATION SpecMC
 CONSTANTS
   Starts = {"1x1","1x3","3x1","2x2","3x3","h3","v3","r3","n2"}
   OpNames = {"InsertRow","AppendRow","DeleteRow","DeleteRows","InsertColumn","AppendColumn","DeleteColumn","DeleteColumns","SetCellText","SetCellFormattedText","AddCellFormattedText","AddCellParagraph","AddCellFormattedParagraph","ClearCellParagraphs","ClearCellContent","AddNestedTable","AddCellList","CellFmt","MergeCellsHorizontal","MergeCellsVertical","MergeCellsRange","UnmergeCells","ClearTable","CopyTable","ReadAll","RowFmt"}
+  Creates = "all"
   Depth = 0
   Slack = 1
   PairMode = "all"
